@@ -3336,6 +3336,13 @@ class Interp:
             if '.' not in fval.name and callable(getattr(_b, fval.name, None)) and not isinstance(getattr(_b, fval.name), type):
                 fval = getattr(_b, fval.name)             # a builtin function taken as a value
             else:
+                # a library function held as a value (map(glob.glob, ...)): the scenario may answer it under its dotted name
+                node = ast.Call(func=ast.Name(id='__external', ctx=ast.Load()), args=[], keywords=[])
+                for x in ast.walk(node):
+                    x.lineno, x.col_offset, x.end_lineno, x.end_col_offset = lineno, 0, lineno, 0
+                r0 = self.h.call(self, node, fval.name, list(args), dict(kwargs), s)
+                if r0 is not None:
+                    return (None if r0 is NONE else r0,)
                 r = self._call_via_temp(fval, list(args), kwargs, s, lineno)
                 return None if r[0] is TOP else r
         if isinstance(fval, Partial):
